@@ -3,7 +3,7 @@
      Gen/GenLadder.v is regenerated from parserfns.py:expr_fn on every run,
      Gen/GenLocales.v from the shipped locale data). *)
 From Coq Require Import List String NArith ZArith Bool Arith.
-From WTP Require Import Base.Str Model.ParserFns Proofs.ParserFnsProofs Proofs.FormatnumProofs Gen.GenLadder Gen.GenLocales.
+From WTP Require Import Base.Str Model.ParserFns Model.ExprParse Proofs.ParserFnsProofs Proofs.FormatnumProofs Proofs.ExprParseProofs Gen.GenLadder Gen.GenLocales.
 Import ListNotations.
 Local Open Scope list_scope.
 
@@ -107,3 +107,43 @@ Example c18_formatnum_example :
   formatnum (mkloc [46] [44] [3%nat; 0%nat]) [49;50;51;52;53;54;55;46;56;57]%N = [49;44;50;51;52;44;53;54;55;46;56;57]%N /\
   formatnum (mkloc [44] [46] [3%nat; 0%nat]) [49;50;51;52;53;54;55;46;56;57]%N = [49;46;50;51;52;46;53;54;55;44;56;57]%N.
 Proof. vm_compute. split; reflexivity. Qed.
+
+
+(* The recursive-descent parser of #expr, as a ladder machine over the ladder regenerated from the
+   current source (Model/ExprParse.v: generic_binary loop per binary level, parse_unary_fn per prefix level,
+   hard-coded terminal), parses the minimally parenthesised printing of EVERY expression tree back to that
+   tree: precedence follows the ladder order, every binary level associates to the left, prefix operators
+   take an operand of their own level.  Holds for any ladder in which each operator sits in exactly one
+   level of its kind ... *)
+Definition conv (l : list (level_kind * list string)) : list level :=
+  map (fun x => (match fst x with BinaryLeft => LBin | PrefixFns => LPre end, snd x)) l.
+
+Theorem c18_expr_parser_inverts_printer_any_ladder :
+  forall L, ladder_okb L = true -> forall e, wfb L e = true ->
+    exists f0, forall f, (f0 <= f)%nat -> ExprParse.parse L f L (pr L e) = Some (e, []).
+Proof. exact parse_print. Qed.
+Print Assumptions c18_expr_parser_inverts_printer_any_ladder.
+
+(* ... which the ladder of the current source is *)
+Theorem c18_expr_ladder_unambiguous : ladder_okb (conv ladder) = true.
+Proof. vm_compute. reflexivity. Qed.
+Print Assumptions c18_expr_ladder_unambiguous.
+
+Theorem c18_expr_parser_inverts_printer :
+  forall e, wfb (conv ladder) e = true ->
+    exists f0, forall f, (f0 <= f)%nat -> ExprParse.parse (conv ladder) f (conv ladder) (pr (conv ladder) e) = Some (e, []).
+Proof. exact (parse_print (conv ladder) c18_expr_ladder_unambiguous). Qed.
+Print Assumptions c18_expr_parser_inverts_printer.
+
+(* non-vacuity: 1 - 2 - 3 is printed without parentheses and read back as (1 - 2) - 3;
+   1 - (2 - 3) keeps its parentheses; "not 2 ^ 3" is (not 2) ^ 3 *)
+Example c18_expr_example :
+  let L := conv ladder in
+  let e1 := GBin "-" (GBin "-" (GNum 1) (GNum 2)) (GNum 3) in
+  let e2 := GBin "-" (GNum 1) (GBin "-" (GNum 2) (GNum 3)) in
+  let e3 := GBin "^" (GUn "not" (GNum 2)) (GNum 3) in
+  wfb L e1 = true /\ pr L e1 = [TNum 1; TOp "-"; TNum 2; TOp "-"; TNum 3] /\
+  pr L e2 = [TNum 1; TOp "-"; TLp; TNum 2; TOp "-"; TNum 3; TRp] /\
+  pr L e3 = [TOp "not"; TNum 2; TOp "^"; TNum 3] /\
+  ExprParse.parse L 50 L (pr L e1) = Some (e1, []) /\ ExprParse.parse L 50 L (pr L e3) = Some (e3, []).
+Proof. vm_compute. repeat split. Qed.
